@@ -16,6 +16,8 @@ import json
 import os
 import random
 import shutil
+import types as _types
+import importlib.util as _importlib_util
 import sys
 
 sys.dont_write_bytecode = True
@@ -277,6 +279,58 @@ def main():
                     sys.argv = argv
                     S.fault = None
                 r.update(writes=S.n_write, fired=S.fired)
+            elif op == "build_hook":
+                # the packaging entry point (protocol_build_hook.py) with the packaging library stubbed: the hook
+                # runs "python ./protocol.py <verb>" from the project root, so `python` is put on PATH for it
+                root = step["root"]
+                for name in ("hatchling", "hatchling.builders", "hatchling.builders.hooks", "hatchling.builders.hooks.plugin",
+                             "hatchling.builders.hooks.plugin.interface"):
+                    sys.modules.setdefault(name, _types.ModuleType(name))
+
+                class BuildHookInterface:        # the few attributes a hook may use
+                    PLUGIN_NAME = "custom"
+
+                    def __init__(self, root):
+                        self.root = root
+                        self.directory = os.path.join(root, "dist")
+                        self.target_name = "wheel"
+                        self.config = {}
+                        self.build_config = None
+                        self.metadata = None
+
+                sys.modules["hatchling.builders.hooks.plugin.interface"].BuildHookInterface = BuildHookInterface
+                shim = os.path.join(root, ".shim")
+                _real_makedirs(shim, exist_ok=True)
+                link = os.path.join(shim, "python")
+                if not os.path.lexists(link):
+                    os.symlink(sys.executable, link)
+                old_cwd, old_path = os.getcwd(), os.environ.get("PATH", "")
+                sys.stdout.flush()
+                saved_out = os.dup(1)           # the hook's subprocess writes to fd 1, which carries this child's answers
+                sink = os.open(os.devnull, os.O_WRONLY)
+                os.dup2(sink, 1)
+                try:
+                    os.chdir(root)
+                    os.environ["PATH"] = shim + os.pathsep + old_path
+                    spec_ = _importlib_util.spec_from_file_location("protocol_build_hook_under_test", os.path.join(root, "protocol_build_hook.py"))
+                    mod = _importlib_util.module_from_spec(spec_)
+                    spec_.loader.exec_module(mod)
+                    hook = mod.ProtocolBuildHook(root)
+                    for call in step["calls"]:
+                        if call == "clean":
+                            hook.clean(["standard"])
+                        else:
+                            hook.initialize("standard", {})
+                    r["status"] = "ok"
+                except Exception as e:  # noqa
+                    r["status"] = type(e).__name__
+                    r["error"] = str(e)[:300]
+                finally:
+                    os.dup2(saved_out, 1)
+                    os.close(saved_out)
+                    os.close(sink)
+                    os.chdir(old_cwd)
+                    os.environ["PATH"] = old_path
             elif op == "lose":
                 rng = random.Random(step["seed"])
                 files = sorted(digest_dir(step["dir"])) if os.path.isdir(step["dir"]) else []
